@@ -1,6 +1,6 @@
 (* Machine integers, outcomes and the small vocabulary shared by every layer.
    Stdlib only.  Nothing here is specific to one property. *)
-From Coq Require Export ZArith List Lia Bool.
+From Coq Require Export ZArith List Lia Bool ZifyBool.
 Export ListNotations.
 Open Scope Z_scope.
 
